@@ -90,3 +90,18 @@ Lemma C19_spurious_cycle_after_abort_refuted :
   all_done (fst (dsl_run_history tb_O13 FUEL init_world [HEdit 0 (Some 2%Z); HSession [SRequire 2; SRequire 1]])) = true /\
   all_done (fst (dsl_run_history tb_O13 FUEL init_world [HEdit 0 (Some 2%Z); HSession [SRequire 1; SRequire 2]])) = true.
 Proof. vm_compute. repeat split; reflexivity. Qed.
+
+(* ---- observation (not a finding: the session contract is broken): a resource changes while a Session is alive.  One session
+   requires Read(0) top-down; its source r50 and the marker r51 change; both are reported to a bottom-up build of that session.
+   Top(2), scheduled through the marker, requires Read (answered from the session's consistent set with the OLD output) and then
+   Lower(1) -> Read, which executes Read nested; Read's new output reschedules the still executing Top, which runs a SECOND time.
+   The end state is right (C03), the price is a double execution inside one bottom-up build. *)
+Definition tb_mid : table :=
+  [(0, CRead 50 EXACT CDone); (1, CReq 0 EQ CDone); (2, CRead 51 EXACT (CIf (CLastEq 0) CDone (CReq 0 EQ (CReq 1 EQ CDone))))].
+Definition h_mid : list step := [HEdit 50 (Some 1%Z); HSession [SRequire 1; SRequire 2]].
+Definition m_mid : list mop := [MSop (SRequire 0); MEdit 50 (Some 2%Z); MEdit 51 (Some 1%Z); MSop (SBottomUp [50; 51])].
+Lemma mid_session_edit_double_execution :
+  let w := snd (dsl_run_history tb_mid FUEL init_world h_mid) in
+  let r := dsl_run_msession tb_mid FUEL (new_session w) m_mid in
+  forallb is_done (fst r) = true /\ executed (snd r) = [2; 0; 1; 2].
+Proof. vm_compute. split; reflexivity. Qed.
